@@ -108,4 +108,18 @@ func init() {
 			c.ssaRepo("visitor-per-item", func(w *effects.World) *report.RuleResult { return effects.VisitorPerItem(w, "cmd/php-parser") })
 		})
 	}
+	extendProp("C18", "no-global-writes on the packages that own pools: a pool is reachable only from the scanner or builder of one parse, never from a package-level variable (seed C18-9: pools shared by all lexers).",
+		[]report.Floor{{Rule: "no-global-writes", What: "functions", Min: 20}},
+		func(c *Ctx) {
+			c.ssaRepo("no-global-writes", func(w *effects.World) *report.RuleResult {
+				return effects.NoGlobalWrites(w, "internal/scanner", "internal/position", "pkg/token", "pkg/position")
+			})
+		})
+	extendProp("C13", "no-global-writes on the observer packages: an observer keeps nothing between two runs outside the object the caller created, so a second run sees what the first saw (seed C13-9: namespaces remembered in a package-level map).",
+		[]report.Floor{{Rule: "no-global-writes", What: "functions", Min: 100}},
+		func(c *Ctx) {
+			c.ssaRepo("no-global-writes", func(w *effects.World) *report.RuleResult {
+				return effects.NoGlobalWrites(w, "pkg/visitor/printer", "pkg/visitor/dumper", "pkg/visitor/traverser", "pkg/visitor/nsresolver", "pkg/visitor")
+			})
+		})
 }
